@@ -170,6 +170,9 @@ func main() {
 		{"same-depth-ambiguous", "type B1 struct{}\n\nfunc (B1) M() string { return \"B1.M\" }\n\ntype B2 struct{}\n\nfunc (B2) M() int { return 2 }\n\ntype T struct {\n\tB1\n\tB2\n}\n\n"},
 		{"shallower-wins-string", "type B1 struct{}\n\nfunc (B1) M() string { return \"B1.M\" }\n\ntype B2 struct{}\n\nfunc (B2) M() int { return 2 }\n\ntype C struct{ B2 }\n\ntype T struct {\n\tB1\n\tC\n}\n\n"},
 		{"shallower-wins-int", "type B1 struct{}\n\nfunc (B1) M() string { return \"B1.M\" }\n\ntype B2 struct{}\n\nfunc (B2) M() int { return 2 }\n\ntype C struct{ B1 }\n\ntype T struct {\n\tC\n\tB2\n}\n\n"},
+		{"deep-left-shallow-right", "type B1 struct{}\n\nfunc (B1) M() string { return \"B1.M\" }\n\ntype B2 struct{}\n\nfunc (B2) M() int { return 2 }\n\ntype C struct{ B1 }\n\ntype D struct{ C }\n\ntype T struct {\n\tD\n\tB2\n}\n\n"},
+		{"deep-right-shallow-left", "type B1 struct{}\n\nfunc (B1) M() string { return \"B1.M\" }\n\ntype B2 struct{}\n\nfunc (B2) M() int { return 2 }\n\ntype C struct{ B2 }\n\ntype D struct{ C }\n\ntype T struct {\n\tB1\n\tD\n}\n\n"},
+		{"pointer-embedded-deeper", "type B1 struct{}\n\nfunc (B1) M() string { return \"B1.M\" }\n\ntype B2 struct{}\n\nfunc (*B2) M() int { return 2 }\n\ntype C struct{ *B2 }\n\ntype T struct {\n\tC\n\tB1\n}\n\n"},
 		{"field-shadows-method", "type B1 struct{}\n\nfunc (B1) M() string { return \"B1.M\" }\n\ntype T struct {\n\tB1\n\tM int\n}\n\n"},
 		{"outer-int-over-two-inner", "type B1 struct{}\n\nfunc (B1) M() string { return \"B1.M\" }\n\ntype B2 struct{}\n\nfunc (B2) M() string { return \"B2.M\" }\n\ntype T struct {\n\tB1\n\tB2\n}\n\nfunc (T) M() int { return 9 }\n\n"},
 	} {
@@ -182,6 +185,11 @@ func main() {
 				{"assertAll", "var e interface{} = v\n_, ok1 := e.(IS)\n_, ok2 := e.(II)\nShow(ok1, ok2)"},
 				{"assertCall", "var e interface{} = v\nif x, ok := e.(II); ok {\nShow(\"II\", x.M())\n}\nif x, ok := e.(IS); ok {\nShow(\"IS\", x.M())\n}"},
 				{"switch", "var e interface{} = v\nswitch e.(type) {\ncase IS:\nShow(\"IS\")\ncase II:\nShow(\"II\")\ndefault:\nShow(\"none\")\n}"},
+				// direct uses; go/types rejects the ones that are ambiguous or not calls (counted, skipped); a method value is never printed (its address differs from run to run)
+				{"direct", "Show(v.M())"},
+				{"mval", "f := v.M\nShow(f())"},
+				{"ifaceS", "var i IS = v\nShow(i.M())"},
+				{"ifaceI", "var i II = v\nShow(i.M())"},
 			} {
 				progs = append(progs, emit.Src{Name: fmt.Sprintf("D2 shape=%s h=%s u=%s", shape[0], holder, u[0]), Text: head + shape[1] + ifaces + "func main() {\n" + init + "\n" + u[1] + "\n}\n"})
 			}
